@@ -22,6 +22,7 @@ def run(tier):
         "[0..4]^<=4 / [-1..3]^<=4 is accepted iff valid, then applied exactly as documented; invalid ones raise ValueError; all 8x6x6 "
         "valid triples per formula are applied exactly; the caller's lists and the input formula stay untouched.")
     run.bounds = ['12 formulas with N<=3 variables, M<=3 clauses', 'all RNG outcomes (<=288 per formula and switch combination)', 'three entry points']
+    run.bounds += ['explicit arguments as list, tuple and range (increasing and decreasing)', 'independence: 12 formulas x 4 argument modes x 3 ways of extending the result / the input afterwards']
     run.outside = ['larger formulas (the random path is the same code for any size, but that is not proved)', 'the Mersenne Twister itself (stubbed)']
     run.assumptions = ['stub: cnfgen.transformations.shuffle.random -> FakeRandom (arbitrary outcome within the documented contract of choice/shuffle/sample/randint/random)',
                        'enumerative mode: draws and switches are concretised by solver decisions, the body runs untraced']
